@@ -1,7 +1,7 @@
 /* big_world.c -- complement to the closure searches: an ENUMERATED family of large deterministic histories, for behaviour that depends on
  * the NUMBER of elements / buckets rather than on a shape a small pool can reach (tree height at 1000+ nodes, tables of 1024+ buckets,
  * lists and maps of thousands of elements).  Not a sample: a fixed, listed set of (container, size, insertion order, erase order) cases,
- * every one executed completely against a reference.  Serves C01, C02, C03, C04, C05, C08, C09, C10, C12, C13, C14, C19, C20 (the property selects the oracle). */
+ * every one executed completely against a reference.  Serves C01, C02, C03, C04, C05, C08, C09, C10, C12, C13, C14, C15, C19, C20 (the property selects the oracle). */
 #define _GNU_SOURCE
 #include "cstl/rbtree.h"
 #include "cstl/map.h"
@@ -10,6 +10,8 @@
 #include "cstl/vector.h"
 #include "cstl/string.h"
 #include "cstl/memory.h"
+#include "cstl/heap.h"
+#include <sanitizer/asan_interface.h>
 #include "cstl/array.h"
 #include <wchar.h>
 #include "hash.c"
@@ -249,6 +251,66 @@ static void list_case(int dl, unsigned n, int ord)
 }
 
 /* every case runs under the abort trap and the hang watchdog */
+/* ================= clear on large containers (C15) ================= */
+/* clear on containers whose SIZE or DEPTH no small pool reaches: a plain binary tree filled in ascending/descending order is a list of n levels
+ * (65, 100, 1000, 3000 deep), a red-black tree / heap / map / list of thousands of elements.  The callback counts per element and poisons it. */
+struct celem { long pad; int key; int cnt; struct cstl_rbtree_node rn; struct cstl_heap_node hn; struct cstl_dlist_node dn; struct cstl_slist_node sn; long tail; };
+static struct celem CE[MAXE];
+static int c_bad, c_calls; static int CK[MAXE], CV[MAXE], c_kcnt[MAXE];
+static int ccmp(const void *a, const void *b, void *p) { (void)p; return (((const struct celem *)a)->key > ((const struct celem *)b)->key) - (((const struct celem *)a)->key < ((const struct celem *)b)->key); }
+static void c_clear(void *e, void *p) { struct celem *c = e; c_calls++; if (p != (void *)&c_bad && p != NULL) c_bad++; if (c < CE || c >= CE + MAXE) { c_bad++; return; } c->cnt++; __asan_poison_memory_region(c, sizeof *c); }
+static void c_clear_map(void *it_, void *p) { cstl_map_iterator_t *it = it_; const int *k = it->key; c_calls++; if (p != (void *)&c_bad || k < CK || k >= CK + MAXE || it->val != (void *)&CV[k - CK]) { c_bad++; return; } c_kcnt[k - CK]++; }
+static const char *ckind[] = { "bintree", "rbtree", "heap", "dlist", "slist", "map" };
+static void clear_case(int kind, unsigned n, int ord)
+{
+    union { struct cstl_bintree bt; struct cstl_rbtree rb; struct cstl_heap h; struct cstl_dlist dl; struct cstl_slist sl; cstl_map_t m; } C; unsigned i, round; int ab;
+    setcase("clear:%d:%u:%d", kind, n, ord);
+    shim_reset();
+    __asan_unpoison_memory_region(CE, sizeof CE);
+    switch (kind) {
+    case 0: cstl_bintree_init(&C.bt, ccmp, NULL, offsetof(struct celem, rn) + offsetof(struct cstl_rbtree_node, n)); break;
+    case 1: cstl_rbtree_init(&C.rb, ccmp, NULL, offsetof(struct celem, rn)); break;
+    case 2: cstl_heap_init(&C.h, ccmp, NULL, offsetof(struct celem, hn)); break;
+    case 3: cstl_dlist_init(&C.dl, offsetof(struct celem, dn)); break;
+    case 4: cstl_slist_init(&C.sl, offsetof(struct celem, sn)); break;
+    default: cstl_map_init(&C.m, icmp, NULL); break;
+    }
+    /* round 0: n elements, clear; round 1: the cleared object is used again (a fresh fill of 5) and cleared again */
+    for (round = 0; round < 2 && !nviol; round++) {
+        unsigned m = round ? 5 : n; size_t sz = 0;
+        for (i = 0; i < m; i++) { CE[i].key = (int)order_at(ord, i, m); CE[i].cnt = 0; CE[i].pad = 0x1111; CE[i].tail = 0x2222; CK[i] = CE[i].key; c_kcnt[i] = 0; }
+        for (i = 0; i < m && !nviol; i++) {
+            switch (kind) {
+            case 0: SHIM_CALL(ab, cstl_bintree_insert(&C.bt, &CE[i], NULL)); break;
+            case 1: SHIM_CALL(ab, cstl_rbtree_insert(&C.rb, &CE[i], NULL)); break;
+            case 2: SHIM_CALL(ab, cstl_heap_push(&C.h, &CE[i])); break;
+            case 3: SHIM_CALL(ab, cstl_dlist_push_back(&C.dl, &CE[i])); break;
+            case 4: SHIM_CALL(ab, cstl_slist_push_back(&C.sl, &CE[i])); break;
+            default: SHIM_CALL(ab, cstl_map_insert(&C.m, &CK[i], &CV[i], NULL)); break;
+            }
+            evals++;
+            if (ab) { fail("%s: insert #%u aborted", ckind[kind], i); return; }
+        }
+        c_bad = c_calls = 0;
+        switch (kind) {
+        case 0: SHIM_CALL(ab, cstl_bintree_clear(&C.bt, c_clear, &c_bad)); sz = cstl_bintree_size(&C.bt); break;
+        case 1: SHIM_CALL(ab, cstl_rbtree_clear(&C.rb, c_clear, &c_bad)); sz = cstl_rbtree_size(&C.rb); break;
+        case 2: SHIM_CALL(ab, cstl_heap_clear(&C.h, c_clear)); sz = cstl_heap_size(&C.h); break;
+        case 3: SHIM_CALL(ab, cstl_dlist_clear(&C.dl, c_clear)); sz = cstl_dlist_size(&C.dl); break;
+        case 4: SHIM_CALL(ab, cstl_slist_clear(&C.sl, c_clear)); sz = cstl_slist_size(&C.sl); break;
+        default: SHIM_CALL(ab, cstl_map_clear(&C.m, c_clear_map, &c_bad)); sz = cstl_map_size(&C.m); break;
+        }
+        __asan_unpoison_memory_region(CE, sizeof CE);
+        evals++;
+        if (ab) { fail("%s of %u elements: clear %s", ckind[kind], m, ab == 3 ? "did not terminate" : ab == 2 ? "hit an assertion" : "aborted"); return; }
+        CHECK(c_calls == (int)m && c_bad == 0, "%s of %u elements (%s fill): clear made %d callbacks, %d of them with a wrong element/private pointer", ckind[kind], m, ordname[ord], c_calls, c_bad);
+        for (i = 0; i < m && !nviol; i++) CHECK((kind == 5 ? c_kcnt[i] : CE[i].cnt) == 1, "%s of %u elements: element %u was handed to the clear callback %d times", ckind[kind], m, i, kind == 5 ? c_kcnt[i] : CE[i].cnt);
+        CHECK(sz == 0, "%s: size %zu after clear", ckind[kind], sz);
+        if (kind == 5) CHECK(shim_nlive() == 0, "map: %d allocations alive after clear", shim_nlive());
+        for (i = 0; i < m; i++) CHECK(CE[i].pad == 0x1111 && CE[i].tail == 0x2222, "element %u: bytes next to its node were overwritten", i);
+    }
+}
+
 /* ================= reference counts beyond 2^16 ================= */
 /* A count of references is a number like any other size: 65535, 65536, 65537 and 70000 simultaneous owners / weak references / array
  * views of one allocation, created with the library's own share / weak_from / slice only, released in two orders. */
@@ -403,6 +465,10 @@ static void run_family(int thorough, const char *only)
         static const size_t geo[][3] = { { 16, 1024, 64 }, { 1024, 2048, 1024 }, { 7, 1031, 5 }, { 2048, 16, 4096 }, { 64, 64 * 3, 1 }, { 8192, 16384, 4096 }, { 16384, 64, 8192 } }; unsigned g;
         for (g = 0; g < 7 && !nviol; g++) { GUARDED(hash_case(3000, geo[g][0], geo[g][1], geo[g][2])); GUARDED(hash_case(4, geo[g][0], geo[g][1], geo[g][2])); GUARDED(hash_case(97, geo[g][0], geo[g][1], geo[g][2])); }
     }
+    if (is("C15")) {
+        static const unsigned cn[] = { 64, 65, 66, 100, 1000, 3000 }; unsigned r; int k, o;
+        for (k = 0; k < 6 && !nviol; k++) for (r = 0; r < 6 && !nviol; r++) for (o = 0; o < 5 && !nviol; o++) { if (k && r < 3 && o > 1) continue; GUARDED(clear_case(k, cn[r], o)); }
+    }
     if (is("C05") || is("C14") || is("C20")) {
         static const unsigned rn[] = { 65535, 65536, 65537, 70000 }; unsigned r; int k, o;
         for (r = 0; r < 4 && !nviol; r++) for (o = 0; o < 2 && !nviol; o++) for (k = 0; k < 3 && !nviol; k++) {
@@ -431,7 +497,7 @@ int main(int argc, char **argv)
         else if (!strcmp(argv[i], "--nconfigs")) { printf("1\n"); return 0; }
         else { fprintf(stderr, "bad arg %s\n", argv[i]); return 2; }
     }
-    if (!(is("C01") || is("C02") || is("C03") || is("C04") || is("C08") || is("C09") || is("C10") || is("C12") || is("C13") || is("C19") || is("C05") || is("C14") || is("C20"))) { fprintf(stderr, "big: property not served\n"); return 2; }
+    if (!(is("C01") || is("C02") || is("C03") || is("C04") || is("C08") || is("C09") || is("C10") || is("C12") || is("C13") || is("C19") || is("C05") || is("C14") || is("C20") || is("C15"))) { fprintf(stderr, "big: property not served\n"); return 2; }
     if (replay) {
         int a, b, c, d; unsigned n; size_t x, y, z;
         if (sscanf(replay, "tree:%d:%u:%d:%d:%d", &a, &n, &b, &c, &d) == 5) GUARDED(tree_case(a, n, b, c, d));
@@ -439,6 +505,7 @@ int main(int argc, char **argv)
         else if (sscanf(replay, "hash:%u:%zu:%zu:%zu", &n, &x, &y, &z) == 4) GUARDED(hash_case(n, x, y, z));
         else if (sscanf(replay, "list:%d:%u:%d", &a, &n, &b) == 3) GUARDED(list_case(a, n, b));
         else if (sscanf(replay, "vector:%zu:%d:%d", &x, &a, &b) == 3) GUARDED(vector_case(x, a, b));
+        else if (sscanf(replay, "clear:%d:%u:%d", &a, &n, &b) == 3) GUARDED(clear_case(a, n, b));
         else if (sscanf(replay, "refs:%d:%u:%d", &a, &n, &b) == 3) GUARDED(refs_case(a, n, b));
         else if (sscanf(replay, "bigstring:%d", &a) == 1) GUARDED(bigstring(a));
         else if (sscanf(replay, "bigwstring:%d", &a) == 1) GUARDED(bigwstring(a));
